@@ -9,8 +9,8 @@ TEXT = {
  },
  "C03": {
   "technique": "property-based testing (rapid) with a schedule-owning explorer; liveness judged by a goroutine-state deadlock detector, stall safety by a reference model of learned/queried contacts",
-  "level": "Generated schedules of query completion, late AddNodes and Stop. Liveness (stall is reported, Stop completes) is decided by 'every module goroutine is blocked and the awaited event has not happened', safety of each stall report by an independent model. A lost wake-up that needs one specific preemption inside the operation's critical sections can be missed, except the one preemption point the harness owns through a hook (run loop between unlock and select, sub-property C03b).",
-  "note": "Deadline hits with runnable goroutines are reported as inconclusive (exit 2), never as violations. C03b uses the VerifBeforeSelect hook to hold the run loop between releasing its lock and its select; the stale stall report this exposes is a genuine defect recorded as an open known finding (C03:stale-stall-after-addnodes), printed as KNOWN-FINDING and not counted as a violation.",
+  "level": "Generated schedules of query completion, late AddNodes and Stop. Liveness (stall is reported, Stop completes) is decided by 'every module goroutine is blocked and the awaited event has not happened', safety of each stall report by an independent model. A lost wake-up that needs one specific preemption inside the operation's critical sections can be missed, except at the one preemption point the harness owns through a hook (run loop between unlock and select): sub-property C03b places AddNodes there, C03c places the last query completions there. Response graphs include chains of 20..60 progressively closer nodes padded with far contacts and graphs of up to 300 addresses, so that the backlog of unasked contacts reaches hundreds.",
+  "note": "Deadline hits with runnable goroutines are reported as inconclusive (exit 2), never as violations. C03c takes 3 s of silence with every library goroutine blocked as 'no stall report will ever come'. C03b uses the VerifBeforeSelect hook to hold the run loop between releasing its lock and its select; the stale stall report this exposes is a genuine defect recorded as an open known finding (C03:stale-stall-after-addnodes), printed as KNOWN-FINDING and not counted as a violation.",
   "ref": "DESIGN.md section 4, C03",
  },
  "C04": {
@@ -21,7 +21,7 @@ TEXT = {
  },
  "C08": {
   "technique": "property-based testing (rapid) over batches of inbound datagrams on a simulated socket; every outbound datagram attributed to its query after a quiescence barrier and judged against the KRPC reply rules",
-  "level": "Generated batches of queries/non-queries of all methods, transaction IDs, argument shapes and source families in passive / hooked / peer-store configurations; the complete outbound traffic of the node is observed at the socket seam.",
+  "level": "Generated batches of queries/non-queries of all methods, transaction IDs, argument shapes and source families in passive / hooked / peer-store configurations, including senders already in the routing table (under either byte form of their IPv4 address), senders claiming the node's own, neighbouring or zero ID, and messages that carry the transaction ID of a query the node itself has outstanding to that very address; the complete outbound traffic of the node is observed at the socket seam.",
   "note": "Trusts the quiescence barrier (serve loop parked, all module goroutines blocked, twice) for 'nothing else was sent'; missing replies are re-examined after a 2 s grace wait. Replies are parsed with the harness's own bencode reader.",
   "ref": "DESIGN.md section 4, C08",
  },
@@ -33,7 +33,7 @@ TEXT = {
  },
  "C18": {
   "technique": "property-based testing (rapid) of algebraic laws (metric, strict total order, set/k-nearest models) plus exhaustive enumeration of all 160 shared-prefix lengths",
-  "level": "Law checking over structured ID triples, candidate sets with ties and unknown IDs (all pairs and triples of each generated set), container operation sequences against sorted-slice/set models, and all 160 prefix lengths x 160 buckets enumerated.",
+  "level": "Law checking over structured ID triples, candidate sets with ties and unknown IDs (all pairs and triples of each generated set), container operation sequences against sorted-slice/set models (every value of a K-nearest push sequence is kept and re-checked later, and forks push further elements starting from earlier values), and all 160 prefix lengths x 160 buckets enumerated.",
   "note": "Uses in-package hooks for the unexported bucket-index and random-bucket-ID helpers.",
   "ref": "DESIGN.md section 4, C18",
  },
@@ -58,8 +58,8 @@ TEXT = {
  },
  "C07": {
   "technique": "property-based testing (rapid) with a harness-owned schedule: outbound queries (some with their send parked inside the socket write) interleaved with marked near-miss and matching datagrams, cancellations and releases; a reference model decides after every event which queries must have returned and with which datagram",
-  "level": "Generated sets of concurrently outstanding queries to colliding destinations (same IP other port, same port other IP, IPv4 / v4-mapped / IPv6) and streams of correct, wrong-address, adjacent-transaction-ID, duplicated and replayed datagrams; a quiescence barrier after every event makes the comparison with the model exact.",
-  "note": "All queries run with a one-hour virtual resend delay so that no time-out races the stream; time-out behaviour is C14's.",
+  "level": "Generated sets of concurrently outstanding queries to colliding destinations (same IP other port, same port other IP, IPv4 / v4-mapped / IPv6) and streams of correct, wrong-address, adjacent-transaction-ID, duplicated and replayed datagrams; a quiescence barrier after every event makes the comparison with the model exact. Sub-property C07b adds long histories: 1..3 queries held outstanding while bursts of up to 70000 later queries (past every 1- and 2-byte boundary of the process-wide transaction counter) are issued and answered, then the held ones receive their own marked replies.",
+  "note": "All queries run with a one-hour virtual resend delay so that no time-out races the stream; time-out behaviour is C14's. A panic raised inside the library on the check's own goroutine (e.g. a duplicate transaction key) is reported as a violation (api-call-panicked).",
   "ref": "DESIGN.md section 4, C07",
  },
  "C09": {
@@ -76,7 +76,7 @@ TEXT = {
  },
  "C14": {
   "technique": "fault-placement enumeration plus property-based sampling (rapid): the complete grid operation x fault x position is enumerated with exact (not timed) placements at the socket-write and resend-delay callbacks; random cells and fault combinations are drawn on top; cleanup judged by pending-transaction count and a goroutine census",
-  "level": "Every cell of the grid {Query NumTries 1..4, Ping} x {reply in send i, reply in final wait, reply after time-out, cancel in send i / wait i / final wait, write error on send i, Close in wait i, after Close} and {Bootstrap, Announce, getput.Get, getput.Put, TableMaintainer pass} x {none, no starting nodes, resolver error, silence, write error / Close / cancel at the k-th write, after Close} is executed (repeated on one server); timing inside a placement is the Go scheduler's.",
+  "level": "Every cell of the grid {Query NumTries 1..4, Ping} x {reply in send i, reply in final wait, reply after time-out, cancel in send i / wait i / final wait, write error on send i, Close in wait i, after Close} and {Bootstrap, Announce, getput.Get, getput.Put, TableMaintainer pass} x {none, no starting nodes, resolver error, silence, write error / Close / cancel at the k-th write, after Close} is executed (repeated on one server); timing inside a placement is the Go scheduler's. Random cells add: traversal operations with the lookup's run loop held (VerifBeforeSelect hook) on every pass until everything else in the node has settled, so that every completion of a pass lands between the loop's unlock and its select; and queries over a send limiter with burst 0..NumTries and no refill, whose next send waits for budget while the reply arrives / the context is cancelled / another exempt query runs / Stats is called.",
   "note": "Time-outs are virtual (resend-delay callback returns 0 or one hour); in the Close cells answered queries wait 40 ms of real time because a reply queued before Close is never read.",
   "ref": "DESIGN.md section 4, C14",
  },
@@ -94,19 +94,19 @@ TEXT = {
  },
  "C20": {
   "technique": "property-based testing (rapid): generated limiter settings, spoofed-source floods and concurrent outbound queries with every rate-limiting policy and failing socket writes; the send budget is checked with a prefix bound that real-time scheduling delay cannot falsify",
-  "level": "For every generated run: the k-th rated datagram is written no earlier than burst + rate x elapsed allows; with a non-refilling limiter at most `burst` rated datagrams ever; no query exceeds NumTries; all calls return.",
-  "note": "Uses real time (the limiter is golang.org/x/time/rate); only the one-sided prefix inequality is asserted. Sliding windows are deliberately not used.",
+  "level": "For every generated run: the k-th rated datagram is written no earlier than burst + rate x elapsed allows, counted from the limiter's creation and again from a quiescent instant that follows a prelude of a few answered queries and a pause long enough to refill the limiter completely; with a non-refilling limiter at most `burst` rated datagrams ever; no query exceeds NumTries; all calls return. In a quarter of the runs the socket reports every n-th rated datagram as written one byte short with no error.",
+  "note": "Uses real time (the limiter is golang.org/x/time/rate); only one-sided prefix inequalities are asserted, each from an instant at which no goroutine is between taking a token and writing (creation, or a quiescence barrier with wait-to-reply off). Sliding windows over observed times are deliberately not used.",
   "ref": "DESIGN.md section 4, C20",
  },
  "C10": {
   "technique": "property-based testing (rapid) of issue/use histories over a harness-controlled token clock; write tokens mutated bit-by-bit, truncated, extended, from another IP or another server; oracle is an independent acceptance window model (<=10 min must, >15 min must not)",
-  "level": "Generated histories of token issue (genuine get/get_peers), clock advances on and around the 5-minute rotation grid (+-1 ns at the 10- and 15-minute bounds) and announce_peer/put uses from the same or other IPs and ports; replies and side effects (announce callback, AddPeer, store Put) are observed at the socket seam and through recording stores.",
+  "level": "Generated histories of token issue (genuine get/get_peers), clock advances on and around the 5-minute rotation grid (+-1 ns at the 10- and 15-minute bounds) and announce_peer/put uses from the same or other IPs and ports - the IP pool includes addresses one bit or byte away from another and, on dual-stack sockets, the same four bytes placed in an address of the other family (aabb:ccdd::, ::a.b.c.d, 2002:aabb:ccdd::, 64:ff9b::a.b.c.d), and writes that are defective in another way as well (put without seq / without v / oversized / bad signature, announce_peer without info_hash / port) - ; replies and side effects (announce callback, AddPeer, store Put) are observed at the socket seam and through recording stores.",
   "note": "Uses the VerifSetTokenClock hook (sets the token server's existing, unexported time source); the real time.Now plumbing is exercised only at 'now'. Between 10 and 15 minutes either outcome is accepted if reply and side effect agree.",
   "ref": "DESIGN.md section 4, C10",
  },
  "C11": {
   "technique": "property-based testing (rapid), model-based: announce/get_peers histories against a reference map infohash -> source IP -> endpoint, every get_peers reply judged for soundness, completeness, BEP 32 entry sizes and token presence",
-  "level": "Generated histories of accepted and rejected announces (port / implied_port / both) and get_peers with every want combination from IPv4, IPv6 and v4-mapped sources over several infohashes, against the bundled in-memory peer store behind the real wire handlers.",
+  "level": "Generated histories of accepted and rejected announces (port / implied_port / both) and get_peers with every want combination from IPv4, IPv6 and v4-mapped sources over up to 6 infohashes, against the bundled in-memory peer store behind the real wire handlers; bursts of 2..6 get_peers (different infohashes and wants) and of announces from distinct IPs for one (often new) infohash are injected back to back so that their replies and store updates are in flight together.",
   "note": "Cross-family conversion of values is permitted, not required; a want list naming neither n4 nor n6 leaves the wanted family open. Asynchronous AddPeer is covered by the quiescence barrier.",
   "ref": "DESIGN.md section 4, C11",
  },
